@@ -122,6 +122,13 @@ def r1_chain(cx):
                     good.append(c)
             outer = gb.calls(r"Option::<std::result::Result<.*>>::transpose$")
             ok = len(good) == 1 and len(outer) == 1 and ("call", fm[0][0]) in gb.origins(outer[0][1]["args"][0]) and ("call", outer[0][0]) in gb.origins(0)
+    # no answer without asking the chain: every return passes the loop (or the find_map), and the locator keeps no state
+    ask = {i for i, _ in nx} | {i for i, _ in gb.calls(r"Iterator>::find_map::<")}
+    asks_always = bool(ask) and gb.must_pass_before_return(ask, success_only=False)
+    st = F.struct("reader::locator::ChainedLocator")
+    stateful = [f_["name"] for f_ in st["fields"] if re.search(r"Mutex|RwLock|Cell|Atomic|Once|HashSet|HashMap|BTree", f_["ty"])]
+    cx.ob("R1", "R1/ChainedLocator.locate/stateless", asks_always and not stateful, g,
+          "every answer of ChainedLocator::locate comes from asking the locators now (no early answer before the loop; no cache field: %s)" % stateful)
     cx.ob("R1", "R1/ChainedLocator.locate/first-some-wins", ok, g, "ChainedLocator::locate iterates the vector forward and returns the first Some(reader), forwarding (uuid, path) unchanged")
     h = F.one(impl_self="ContainerPack", item="locate", trait="PackLocatorTrait", closure=False)
     hb = F.deep_body(h, only=r"container_pack::ContainerPack::")     # through the pack's own accessors (get_pack_reader)
